@@ -262,6 +262,53 @@ func tailReturns(list []ast.Stmt) bool {
 					return false
 				}
 			}
+		case *ast.ForStmt:
+			if containsReturn(x) {
+				if !last || !returnsBreakable(x.Body.List) {
+					return false
+				}
+			}
+		case *ast.RangeStmt:
+			if containsReturn(x) {
+				// after a range loop that ends normally the function would fall off its end: only for result-less helpers,
+				// which lowerReturns handles (the `return` becomes `break`)
+				if !last || !returnsBreakable(x.Body.List) {
+					return false
+				}
+			}
+		default:
+			if containsReturn(s) {
+				return false
+			}
+		}
+	}
+	return true
+}
+
+// returnsBreakable: every return below the loop body is reachable through ifs / blocks only (no inner loop, switch or
+// select in between), so replacing it by `break` leaves exactly the enclosing loop.
+func returnsBreakable(list []ast.Stmt) bool {
+	for _, s := range list {
+		switch x := s.(type) {
+		case *ast.ReturnStmt:
+		case *ast.IfStmt:
+			if !returnsBreakable(x.Body.List) {
+				return false
+			}
+			switch e := x.Else.(type) {
+			case *ast.BlockStmt:
+				if !returnsBreakable(e.List) {
+					return false
+				}
+			case *ast.IfStmt:
+				if !returnsBreakable([]ast.Stmt{e}) {
+					return false
+				}
+			}
+		case *ast.BlockStmt:
+			if !returnsBreakable(x.List) {
+				return false
+			}
 		default:
 			if containsReturn(s) {
 				return false
@@ -489,9 +536,6 @@ func (nz *normaliser) normaliseUnits(all []*normUnit) []string {
 			delete(plan, fn)
 		}
 	}
-	if len(plan) == 0 {
-		return nil
-	}
 	// 2. rewrite callers (fixpoint: a caller may itself be a helper of another function)
 	done := map[*ast.FuncDecl]*ast.FuncDecl{}
 	var normalise func(p *normUnit, fd *ast.FuncDecl, depth int) *ast.FuncDecl
@@ -510,11 +554,34 @@ func (nz *normaliser) normaliseUnits(all []*normUnit) []string {
 			}
 			return !needs
 		})
-		if !needs || depth > 4 {
+		loops := hasIndexedRange(info, fd.Body)
+		if (!needs && !loops) || depth > 4 {
 			return fd
 		}
 		clone := cloneNode(info, fd).(*ast.FuncDecl)
 		changed := false
+		if loops {
+			// `for i := 0; i < len(S); i++ { x := S[i]; … }` is written as `for i, x := range S { … }`
+			var canon func(list []ast.Stmt) []ast.Stmt
+			canon = func(list []ast.Stmt) []ast.Stmt {
+				for k, s := range list {
+					if fs, ok := s.(*ast.ForStmt); ok {
+						if rs := indexedRangeOf(info, fs); rs != nil {
+							list[k] = rs
+							changed = true
+							s = rs
+						} else if rot := rotatedLoopOf(info, fs); rot != nil {
+							list[k] = rot
+							changed = true
+							s = rot
+						}
+					}
+					nz.rewriteNested(s, canon)
+				}
+				return list
+			}
+			clone.Body.List = canon(clone.Body.List)
+		}
 		var rewrite func(list []ast.Stmt) []ast.Stmt
 		rewrite = func(list []ast.Stmt) []ast.Stmt {
 			var out []ast.Stmt
@@ -819,11 +886,60 @@ func (nz *normaliser) splice(info *types.Info, s ast.Stmt, call *ast.CallExpr, h
 	default:
 		return nil, false
 	}
-	multi := countReturns(body.List) > 1
-	if as, ok := s.(*ast.AssignStmt); ok && multi && as.Tok == token.DEFINE {
-		// several returns: the targets are declared by the first assignment on every path (if/else arms), which is
-		// what the lowering below produces; nothing to add
-		_ = as
+	// `x := H(…)` where H ends in its only `return v`, v a local of H: v IS x — the helper's local takes the
+	// caller's object and the final copy disappears (the caller's variable then shows the helper's assignments)
+	if as, ok := s.(*ast.AssignStmt); ok && len(as.Lhs) == 1 && countReturns(body.List) == 1 && len(body.List) > 0 {
+		if rt, ok := body.List[len(body.List)-1].(*ast.ReturnStmt); ok && len(rt.Results) == 1 {
+			if rid, ok := unparen(rt.Results[0]).(*ast.Ident); ok {
+				vobj := info.Uses[rid]
+				isHelperLocal := false
+				for _, f := range fresh {
+					if f == vobj {
+						isHelperLocal = true
+					}
+				}
+				if xobj := identObj(info, as.Lhs[0]); xobj != nil && vobj != nil && isHelperLocal {
+					if xid, ok := unparen(as.Lhs[0]).(*ast.Ident); ok {
+						ast.Inspect(body, func(m ast.Node) bool {
+							if id, ok := m.(*ast.Ident); ok {
+								if info.Defs[id] == vobj {
+									if as.Tok == token.DEFINE {
+										info.Defs[id] = xobj
+									} else {
+										delete(info.Defs, id)
+										info.Uses[id] = xobj
+									}
+									id.Name = xid.Name
+								} else if info.Uses[id] == vobj {
+									info.Uses[id] = xobj
+									id.Name = xid.Name
+								}
+							}
+							return true
+						})
+						if as.Tok == token.ASSIGN {
+							// the helper's `v := e` defined a new variable; for `x = H()` it becomes an assignment
+							ast.Inspect(body, func(m ast.Node) bool {
+								if a2, ok := m.(*ast.AssignStmt); ok && a2.Tok == token.DEFINE {
+									all := true
+									for _, l := range a2.Lhs {
+										if identObj(info, l) != xobj {
+											all = false
+										}
+									}
+									if all {
+										a2.Tok = token.ASSIGN
+									}
+								}
+								return true
+							})
+						}
+						body.List = body.List[:len(body.List)-1]
+						onReturn = func(rt *ast.ReturnStmt) []ast.Stmt { return nil }
+					}
+				}
+			}
+		}
 	}
 	lowered, ok := lowerReturns(body.List, onReturn)
 	if !ok {
@@ -890,11 +1006,60 @@ func lowerReturns(list []ast.Stmt, onReturn func(*ast.ReturnStmt) []ast.Stmt) ([
 			out = append(out, &ast.IfStmt{If: x.If, Init: x.Init, Cond: x.Cond, Body: &ast.BlockStmt{Lbrace: x.Body.Lbrace, List: thenL, Rbrace: x.Body.Rbrace},
 				Else: &ast.BlockStmt{Lbrace: eb.Lbrace, List: elseL, Rbrace: eb.Rbrace}})
 			return out, true
+		case *ast.ForStmt:
+			if containsReturn(x) {
+				if i != len(list)-1 {
+					return nil, false
+				}
+				x.Body.List = breakReturns(x.Body.List, onReturn)
+			}
+			out = append(out, s)
+		case *ast.RangeStmt:
+			if containsReturn(x) {
+				if i != len(list)-1 {
+					return nil, false
+				}
+				x.Body.List = breakReturns(x.Body.List, onReturn)
+			}
+			out = append(out, s)
 		default:
 			out = append(out, s)
 		}
 	}
 	return out, true
+}
+
+// breakReturns replaces `return e…` by `onReturn(e…); break` in a loop body (see returnsBreakable).
+func breakReturns(list []ast.Stmt, onReturn func(*ast.ReturnStmt) []ast.Stmt) []ast.Stmt {
+	var out []ast.Stmt
+	for _, s := range list {
+		switch x := s.(type) {
+		case *ast.ReturnStmt:
+			repl := onReturn(x)
+			// a `return f(…)` context keeps the return itself; otherwise leave the loop
+			if len(repl) == 1 && repl[0] == ast.Stmt(x) {
+				out = append(out, x)
+				continue
+			}
+			out = append(out, repl...)
+			out = append(out, &ast.BranchStmt{TokPos: x.Return, Tok: token.BREAK})
+		case *ast.IfStmt:
+			x.Body.List = breakReturns(x.Body.List, onReturn)
+			switch e := x.Else.(type) {
+			case *ast.BlockStmt:
+				e.List = breakReturns(e.List, onReturn)
+			case *ast.IfStmt:
+				breakReturns([]ast.Stmt{e}, onReturn)
+			}
+			out = append(out, s)
+		case *ast.BlockStmt:
+			x.List = breakReturns(x.List, onReturn)
+			out = append(out, s)
+		default:
+			out = append(out, s)
+		}
+	}
+	return out
 }
 
 func (nz *normaliser) summary() string {
@@ -1036,4 +1201,141 @@ func replaceExpr(root ast.Node, old, new ast.Expr) bool {
 	}
 	walk(reflect.ValueOf(root))
 	return done
+}
+
+// indexedRangeOf: fs is `for i := 0; i < len(S); i++ { x := S[i]; rest }` (or `len(S) > i`) where S is a plain
+// variable / field path, and neither i nor S's root variable is assigned in the body: the equivalent
+// `for i, x := range S { rest }` (built from the loop's own nodes). nil otherwise.
+func indexedRangeOf(info *types.Info, fs *ast.ForStmt) *ast.RangeStmt {
+	init, ok := fs.Init.(*ast.AssignStmt)
+	if !ok || init.Tok != token.DEFINE || len(init.Lhs) != 1 || len(init.Rhs) != 1 || fs.Cond == nil {
+		return nil
+	}
+	if v, isC := constInt(info, init.Rhs[0]); !isC || v != 0 {
+		return nil
+	}
+	iv := identObj(info, init.Lhs[0])
+	post, ok := fs.Post.(*ast.IncDecStmt)
+	if !ok || post.Tok != token.INC || identObj(info, post.X) != iv || iv == nil {
+		return nil
+	}
+	bound, ok := upperBound(info, fs.Cond, iv)
+	if !ok {
+		return nil
+	}
+	call, ok := unparen(bound).(*ast.CallExpr)
+	if !ok || builtinName(info, call) != "len" || len(call.Args) != 1 || len(fs.Body.List) == 0 {
+		return nil
+	}
+	S := call.Args[0]
+	if _, isSlice := info.TypeOf(S).Underlying().(*types.Slice); !isSlice {
+		return nil
+	}
+	// S: identifier or selector chain (no calls, no indexing)
+	root := unparen(S)
+	for {
+		if se, ok := root.(*ast.SelectorExpr); ok {
+			root = unparen(se.X)
+			continue
+		}
+		break
+	}
+	rootObj := identObj(info, root)
+	if rootObj == nil {
+		return nil
+	}
+	first, ok := fs.Body.List[0].(*ast.AssignStmt)
+	if !ok || first.Tok != token.DEFINE || len(first.Lhs) != 1 || len(first.Rhs) != 1 {
+		return nil
+	}
+	ix, ok := unparen(first.Rhs[0]).(*ast.IndexExpr)
+	if !ok || identObj(info, ix.Index) != iv || exprString(unparen(ix.X)) != exprString(unparen(S)) {
+		return nil
+	}
+	xv := identObj(info, first.Lhs[0])
+	if xv == nil {
+		return nil
+	}
+	// neither the counter, nor the element variable's definition, nor S is written in the rest of the body
+	bad := false
+	for _, st := range fs.Body.List[1:] {
+		ast.Inspect(st, func(m ast.Node) bool {
+			switch x := m.(type) {
+			case *ast.AssignStmt:
+				for _, l := range x.Lhs {
+					o := identObj(info, l)
+					if o != nil && (o == iv || o == rootObj) {
+						bad = true
+					}
+					if exprString(unparen(l)) == exprString(unparen(S)) {
+						bad = true
+					}
+				}
+			case *ast.IncDecStmt:
+				if identObj(info, x.X) == iv {
+					bad = true
+				}
+			case *ast.UnaryExpr:
+				if x.Op == token.AND && (identObj(info, x.X) == iv || identObj(info, x.X) == rootObj) {
+					bad = true
+				}
+			}
+			return !bad
+		})
+	}
+	if bad {
+		return nil
+	}
+	return &ast.RangeStmt{For: fs.For, Key: init.Lhs[0], Value: first.Lhs[0], TokPos: init.TokPos, Tok: token.DEFINE, X: S,
+		Body: &ast.BlockStmt{Lbrace: fs.Body.Lbrace, List: fs.Body.List[1:], Rbrace: fs.Body.Rbrace}}
+}
+
+func hasIndexedRange(info *types.Info, body *ast.BlockStmt) bool {
+	found := false
+	ast.Inspect(body, func(m ast.Node) bool {
+		if fs, ok := m.(*ast.ForStmt); ok && (indexedRangeOf(info, fs) != nil || rotatedLoopOf(info, fs) != nil) {
+			found = true
+		}
+		return !found
+	})
+	return found
+}
+
+// rotatedLoopOf: `for v := E; cond; v = E { body }` (the same expression E fetched before every test) is written
+// `for { v := E; if !(cond) { break }; body }`. nil when fs is not of that form.
+func rotatedLoopOf(info *types.Info, fs *ast.ForStmt) *ast.ForStmt {
+	init, ok := fs.Init.(*ast.AssignStmt)
+	if !ok || init.Tok != token.DEFINE || len(init.Lhs) != 1 || len(init.Rhs) != 1 || fs.Cond == nil {
+		return nil
+	}
+	post, ok := fs.Post.(*ast.AssignStmt)
+	if !ok || post.Tok != token.ASSIGN || len(post.Lhs) != 1 || len(post.Rhs) != 1 {
+		return nil
+	}
+	v := identObj(info, init.Lhs[0])
+	if v == nil || identObj(info, post.Lhs[0]) != v || exprString(init.Rhs[0]) != exprString(post.Rhs[0]) {
+		return nil
+	}
+	if _, isCall := unparen(init.Rhs[0]).(*ast.CallExpr); !isCall {
+		return nil
+	}
+	// the body must not assign v itself
+	bad := false
+	ast.Inspect(fs.Body, func(m ast.Node) bool {
+		if as, ok := m.(*ast.AssignStmt); ok {
+			for _, l := range as.Lhs {
+				if identObj(info, l) == v {
+					bad = true
+				}
+			}
+		}
+		return !bad
+	})
+	if bad {
+		return nil
+	}
+	guard := &ast.IfStmt{If: fs.Cond.Pos(), Cond: &ast.UnaryExpr{OpPos: fs.Cond.Pos(), Op: token.NOT, X: &ast.ParenExpr{Lparen: fs.Cond.Pos(), X: fs.Cond, Rparen: fs.Cond.End()}},
+		Body: &ast.BlockStmt{Lbrace: fs.Cond.End(), List: []ast.Stmt{&ast.BranchStmt{TokPos: fs.Cond.End(), Tok: token.BREAK}}, Rbrace: fs.Cond.End()}}
+	list := append([]ast.Stmt{init, guard}, fs.Body.List...)
+	return &ast.ForStmt{For: fs.For, Body: &ast.BlockStmt{Lbrace: fs.Body.Lbrace, List: list, Rbrace: fs.Body.Rbrace}}
 }
